@@ -552,7 +552,12 @@ class History:
         if self.twin:
             self.fixed_rnd = r.getrandbits(40)
         try:
-            return self._run_step(ep, max_calls)
+            res = self._run_step(ep, max_calls)
+            if self.twin:
+                # the real contract may need more iterations than the generation-time model run
+                # (different seeds): flush with an unlimited call (rejected if already complete)
+                self.call(OWNER, ep, budget='-')
+            return res
         finally:
             self.fixed_rnd = None
 
